@@ -32,7 +32,7 @@ import (
 
 func init() {
 	register(&Prop{
-		ID: "C13", Gen: genC13, GenRace: genC13, Run: runC13, Quick: 2500, Thorough: 300000, RaceQuick: 250, RaceThorough: 12000,
+		ID: "C13", HangIsViolation: true, Gen: genC13, GenRace: genC13, Run: runC13, Quick: 2500, Thorough: 300000, RaceQuick: 250, RaceThorough: 12000,
 		Real: []string{"pkg/intermediate AggregationProcess: AggregateMsgByFlowKey, ForAllExpiredFlowRecordsDo, GetRecords, GetNumFlows, GetExpiryFromExpirePriorityQueue, Start/Stop worker pool", "pkg/entities records"},
 		Stub: []string{"wall clock (synctest bubble)", "goroutine scheduling (sim layer: seeded baton scheduler with preemptions at instrumented statements; race layer: Go scheduler with seeded Gosched perturbation)"},
 		Rule: "2-4 tasks issue up to 14 operations per concurrent phase (ingest on 2-3 keys with per-node streams owned by one task each, expiry scans, GetRecords, GetNumFlows, GetExpiry...) in 1-3 phases separated by clock advances; the invoke/return history is checked for linearizability against the sequential model with porcupine; non-trivial = at least 2 tasks with overlapping operations on a shared key; distinct = distinct event-log hash (sim layer) or plan seed (race layer)",
@@ -45,6 +45,9 @@ type c13Input struct {
 	Key   int
 	Reset bool
 	Now   time.Time
+	// getall: -1 no filter (nil key), -2 protocol-only filter (matches every flow of the plans),
+	// k >= 0 source-address-only filter of key k (matches that flow only)
+	Filter int
 }
 
 type c13Call struct {
@@ -59,6 +62,7 @@ type c13Output struct {
 	Snap    map[string]string
 	Num     int
 	Dur     time.Duration
+	All     []c13Call // getall: one entry per returned record, sorted by key (-1: not a key of the plan)
 }
 
 type c13State struct {
@@ -112,6 +116,26 @@ func c13Model(active, inactive time.Duration, maxRetries int, minExpiry time.Dur
 					return true, ns
 				}
 				return snapDiff(expectedSnap(f), out.Snap) == "", ns
+			case "getall":
+				want := map[int]bool{}
+				for k := range m.Flows {
+					if in.Filter < 0 || in.Filter == k {
+						want[k] = true
+					}
+				}
+				if len(out.All) != len(want) {
+					return false, ns
+				}
+				for _, c := range out.All {
+					if !want[c.Key] {
+						return false, ns
+					}
+					delete(want, c.Key)
+					if snapDiff(expectedSnap(m.Flows[c.Key]), c.Snap) != "" {
+						return false, ns
+					}
+				}
+				return true, ns
 			case "expiry":
 				next, ok := m.nextExpiry()
 				var want time.Duration
@@ -204,6 +228,12 @@ func c13Model(active, inactive time.Duration, maxRetries int, minExpiry time.Dur
 				return fmt.Sprintf("get(%d)->present=%v end=%s", in.Key, out.Present, out.Snap["flowEndSeconds"])
 			case "num":
 				return fmt.Sprintf("num->%d", out.Num)
+			case "getall":
+				var ks []int
+				for _, c := range out.All {
+					ks = append(ks, c.Key)
+				}
+				return fmt.Sprintf("getall(filter=%d)->%v", in.Filter, ks)
 			}
 			return fmt.Sprintf("expiry->%v", out.Dur)
 		},
@@ -292,8 +322,11 @@ func genC13(seed uint64, tier string) *plan.Plan {
 					N: []int64{int64(s.start), int64(end), int64(s.rates[0] * dt), int64(s.rates[1] * dt), int64(s.rates[2] * dt), int64(s.rates[3] * dt), val * 1000003 % 65521, val}})
 			case x < 14:
 				pl.Ops = append(pl.Ops, plan.Op{K: "scan", T: t, B: int64(r.IntN(2))})
-			case x < 17:
+			case x < 16:
 				pl.Ops = append(pl.Ops, plan.Op{K: "get", T: t, A: int64(r.IntN(nk))})
+			case x < 17:
+				// list query: no key, or a partial key
+				pl.Ops = append(pl.Ops, plan.Op{K: "getall", T: t, A: int64(r.IntN(nk+2) - 2)})
 			case x < 19:
 				pl.Ops = append(pl.Ops, plan.Op{K: "num", T: t})
 			default:
@@ -377,6 +410,36 @@ func runC13(pl *plan.Plan, out *plan.Outcome) {
 				o.Snap = takeSnap(func(n string) (string, bool) { return mapStr(m, n) })
 			}
 			record(t, c13Input{Kind: "get", Key: k, Now: now}, call, o)
+		case "getall":
+			filter := int(op.A)
+			if filter >= len(s.keyCat) || filter < -2 {
+				filter = -1
+			}
+			var fkp *intermediate.FlowKey
+			switch {
+			case filter == -2:
+				fkp = &intermediate.FlowKey{Protocol: 6}
+			case filter >= 0:
+				fkp = &intermediate.FlowKey{SourceAddress: aggKeyOf(filter, s.keyV6[filter]).SourceAddress}
+			}
+			recs := s.ap.GetRecords(fkp)
+			o := c13Output{}
+			for _, m := range recs {
+				m := m
+				k := -1
+				src, _ := mapStr(m, "sourceIPv4Address")
+				src6, _ := mapStr(m, "sourceIPv6Address")
+				for i := range s.keyCat {
+					fk := aggKeyOf(i, s.keyV6[i])
+					if (!s.keyV6[i] && src == fk.SourceAddress) || (s.keyV6[i] && src6 == fk.SourceAddress) {
+						k = i
+					}
+				}
+				o.All = append(o.All, c13Call{Key: k, Snap: takeSnap(func(n string) (string, bool) { return mapStr(m, n) })})
+			}
+			sort.Slice(o.All, func(i, j int) bool { return o.All[i].Key < o.All[j].Key })
+			env.Count("agg.list_queries", 1)
+			record(t, c13Input{Kind: "getall", Filter: filter, Now: now}, call, o)
 		case "num":
 			n := s.ap.GetNumFlows()
 			record(t, c13Input{Kind: "num", Now: now}, call, c13Output{Num: int(n)})
@@ -485,6 +548,12 @@ func runC13(pl *plan.Plan, out *plan.Outcome) {
 		}
 	})
 	res := env.Run()
+	if res == "stuck" && sess != nil {
+		// every task is blocked and no timer is pending: an operation of the aggregation process
+		// never returns, so no sequential order explains the history
+		env.Violate("operation-never-returns", "", "the run did not finish: with all tasks blocked and no timer pending, %d operations had returned and at least one never does (deadlock inside the aggregation process)", len(history))
+		return
+	}
 	if res != "done" && out.Trouble == "" {
 		out.Trouble = "run ended: " + res
 		return
@@ -493,8 +562,13 @@ func runC13(pl *plan.Plan, out *plan.Outcome) {
 		return
 	}
 	// ---- linearizability (outside the scheduler; porcupine's timeout reads the real clock) ----
+	oraclePhase()
 	model := c13Model(sess.model.Active, sess.model.Inactive, sess.model.MaxRetries, intermediate.MinExpiryTime)
-	resLin, info := porcupine.CheckOperationsVerbose(model, history, 20*time.Second)
+	linTimeout := 20 * time.Second
+	if pl.Mode == "race" {
+		linTimeout = 10 * time.Second
+	}
+	resLin, info := porcupine.CheckOperationsVerbose(model, history, linTimeout)
 	_ = info
 	switch resLin {
 	case porcupine.Illegal:
